@@ -170,11 +170,15 @@ class UserNum(object):
 
 
 MAKE = {'int': lambda i: 2 + i, 'float': lambda i: 0.5 + i, 'Decimal': lambda i: D('1.5') + i, 'Fraction': lambda i: F(1, 2) + i,
-        'user': lambda i: UserNum(F(7, 4) + i)}
+        'user': lambda i: UserNum(F(7, 4) + i),
+        # values that are not short binary fractions: promotion must keep the exact value of the float / Decimal
+        'float*': lambda i: 0.1 + i, 'Decimal*': lambda i: D('0.1') + i, 'Fraction*': lambda i: F(1, 3) + i}
 
 
 def eval_promo(fam, ctor, kinds):
+    kinds0 = tuple(kinds)
     vals = [MAKE[k](i) for i, k in enumerate(kinds)]
+    kinds = tuple(k.rstrip('*') for k in kinds)
     top = min(kinds, key=lambda k: RANK[k])
     want_t = {'int': int, 'float': float, 'Decimal': D, 'Fraction': F, 'user': UserNum}[top]
     cell = 'promotion|%s|%s' % (ctor, top)
@@ -182,7 +186,7 @@ def eval_promo(fam, ctor, kinds):
     if ctor == 'Point':
         th = lambda: (lambda p: [p.x, p.y, p.z])(Point(*vals))
     r = lib.call(th)
-    sc = core.enc(('promo', ctor, kinds))
+    sc = core.enc(('promo', ctor, kinds0))
     if isinstance(r, lib.Raised):
         return cell, [Viol('C18|promotion|%s|%s|raises:%s' % (ctor, top, r.cls), sc, top, repr(r), 'mixed-type constructor raised')]
     viols = []
@@ -258,6 +262,18 @@ def eval_consts(fam):
         r = lib.call(lambda: comps(th()))
         if isinstance(r, lib.Raised) or r != exp:
             viols.append(Viol('C18|const|%s|wrong-value' % name, core.enc(('const',)), exp, lib.describe(r), name))
+    # a constant handed out earlier and mutated by its receiver must not change what the name denotes later
+    for name, th, exp in (('zero', Vector.zero, [0, 0, 0]), ('x_unit_vector', x_unit_vector, [1, 0, 0]),
+                          ('y_unit_vector', y_unit_vector, [0, 1, 0]), ('z_unit_vector', z_unit_vector, [0, 0, 1])):
+        def seq():
+            e = th()
+            e[1] = 7
+            e[0] = -3
+            return comps(th())
+        r = lib.call(seq)
+        if isinstance(r, lib.Raised) or r != exp:
+            viols.append(Viol('C18|const|%s|changed-after-mutating-an-earlier-result' % name, core.enc(('const',)), exp, lib.describe(r),
+                              '%s() after an earlier result of it was modified in place' % name))
     return 'constants', viols
 
 
@@ -327,6 +343,8 @@ def families(tier):
     fams.append(ListFamily('ring', [('ring',), ('const',)]))
     kinds = ('int', 'float', 'Decimal', 'Fraction', 'user')
     fams.append(ListFamily('promotion', [('promo', c, ks) for c in ('Vector', 'Vector-list', 'Point') for ks in product(kinds, repeat=3)]))
+    kinds2 = ('int', 'float*', 'Decimal*', 'Fraction*', 'user')
+    fams.append(ListFamily('promotion-nonbinary', [('promo', c, ks) for c in ('Vector', 'Vector-list', 'Point') for ks in product(kinds2, repeat=3)]))
     scales = (F(1, 10 ** 6), F(1, 1000), 1, 1000, 10 ** 6)
     sc = []
     for d in A.D2:
